@@ -26,10 +26,17 @@ LEVEL = "model_checking"
 OUT = -2.0  # value of the padding samples relative to the level ("outside")
 
 
+MC_OPTIONS = {}
+
+
 def call_mc(vol, level, spacing, direction):
     from chmpy.mc import marching_cubes
 
-    return marching_cubes(vol, level, spacing=spacing, gradient_direction=direction)
+    keep = np.array(vol, copy=True)
+    out = marching_cubes(vol, level, spacing=spacing, gradient_direction=direction, **MC_OPTIONS)
+    if not np.array_equal(keep, vol):
+        raise AssertionError("marching_cubes modified the caller's volume array")
+    return out
 
 
 def has_face_tie(vol, level):
@@ -237,6 +244,13 @@ def gaussian_field(shape, spacing, centres, widths, amps):
 
 def smooth_worker(part, job):
     kind = job[0]
+    if kind == "blobs-nodegenerate":
+        MC_OPTIONS["allow_degenerate"] = False
+        try:
+            smooth_worker(part, ("blobs",) + tuple(job[1:]))
+        finally:
+            MC_OPTIONS.clear()
+        return
     if kind == "blobs":
         _, nblob, shape, spacing, direction, level, variant = job
         ext = np.array(shape) * np.array(spacing)
@@ -503,6 +517,8 @@ def run(ctx):
                 for level in (0.25, 0.5, 0.75):
                     for variant in (0, 1):
                         jobs.append(("smooth", ("blobs", nblob, shape, spacing, direction, level, variant)))
+                    if level == 0.5:
+                        jobs.append(("smooth", ("blobs-nodegenerate", nblob, shape, spacing, direction, level, 0)))
     for radii in ((2.0, 2.0, 2.0), (1.5, 2.5, 2.0)):
         for direction in ("descent", "ascent"):
             jobs.append(("smooth", ("ladder", radii, direction)))
